@@ -253,6 +253,10 @@ class Signs:
                 return NONNEG if r[1] >= 0 else OTHER
             if node.id in ("MAX_FLOAT",):
                 return NONNEG
+            # a module-level name bound once to an expression (`_FLOAT_MAX = np.finfo(float).max`): the kind of that expression
+            cn_ = getattr(f.module, "const_nodes", {}).get(node.id)
+            if cn_ is not None and depth < 3 and not isinstance(cn_, ast.Name):
+                return self.kind(cn_, f, {}, depth + 1)
             return OTHER
         if isinstance(node, ast.Attribute):
             if u(node).endswith(".max") and "finfo" in u(node):
